@@ -180,11 +180,18 @@ func runValid(c *ValidCase, pkg *reg.Pkg, res *rep.Result) {
 	}
 }
 
+// dfp: the tree path of a defaults-mode field ("i8", "rate-limit/burst", "peer-group/=str:x/ttl")
+func dfp(f string) string { return fp(append([]string{"d"}, strings.Split(f, "/")...)...) }
+
 func runDef(c *DefCase, pkg *reg.Pkg, res *rep.Result) {
 	t := abs.NewTree()
-	conts(t, "vfe/d", "vfe/v")
+	conts(t, "vfe/d", "vfe/v", "vfe/d/rate-limit", "vfe/d/rate_limit")
+	for _, l := range []string{"peer-group", "peer_group"} {
+		t.Ents[fp("d", l)] = []string{"=str:x"}
+		t.Leaves[fp("d", l, "=str:x", "name")] = "str:x"
+	}
 	for _, f := range c.Pre {
-		t.Leaves[fp("d", f[0])] = f[1]
+		t.Leaves[dfp(f[0])] = f[1]
 	}
 	switch c.Ch {
 	case "a1":
@@ -241,13 +248,13 @@ func runDef(c *DefCase, pkg *reg.Pkg, res *rep.Result) {
 	post := abs.Project(root, pkg)
 	// every defaulted leaf: default if it was unset, unchanged otherwise
 	for _, f := range c.Post {
-		got := post.Leaves[fp("d", f[0])]
+		got := post.Leaves[dfp(f[0])]
 		if !sameCanon(got, f[1]) {
 			conj := "default-not-applied"
-			if _, wasSet := pre.Leaves[fp("d", f[0])]; wasSet {
+			if _, wasSet := pre.Leaves[dfp(f[0])]; wasSet {
 				conj = "set-leaf-changed"
 			}
-			res.Violate("C33", sig(conj, f[0]), fmt.Sprintf("after PopulateDefaults leaf d/%s = %q, want %q (before: %q)", f[0], got, f[1], pre.Leaves[fp("d", f[0])]), &cc)
+			res.Violate("C33", sig(conj, f[0]), fmt.Sprintf("after PopulateDefaults leaf d/%s = %q, want %q (before: %q)", f[0], got, f[1], pre.Leaves[dfp(f[0])]), &cc)
 		}
 	}
 	if c.A1 != "-" {
